@@ -1,6 +1,14 @@
-"""C01 — decided on the serial dependency engine; see deps_check.py (shared body) and DESIGN §7."""
-import deps_check
+"""C01 — decided on the serial dependency engine; see deps_check.py (shared body), core_check.py (the proven
+plain-target core against the real binaries) and DESIGN §7."""
+import deps_check, core_check
 from c_deps_common import *
 
 def run(ctx):
-    return deps_check.run_property(ctx, "C01", FEATURES["C01"], NCASES["C01"], WANT["C01"], known_matcher=KNOWN.get("C01"))
+    cov = deps_check.run_property(ctx, "C01", FEATURES["C01"], NCASES["C01"], WANT["C01"], known_matcher=KNOWN.get("C01"))
+    if not ctx.get("replay"):
+        ccov, cviol = core_check.run(ctx, "C01", 40)
+        cov.update(ccov)
+        cov["evaluations"] = cov.get("evaluations", 0) + ccov["core_ops"]
+        cov["disagreements_checked"] = cov.get("disagreements_checked", 0) + ccov["core_ops"]
+        ctx.setdefault("violations", []).extend(cviol)
+    return cov
